@@ -366,6 +366,25 @@ fn outstation_corpus(k: usize) -> Vec<Vec<u8>> {
             db.update(i, &OctetString::new(&vec![0x41; 1 + n]).unwrap(), opt);
         }
     });
+    // device attributes: a few in the default set, and a private set whose variation list
+    // needs the short (<= 127 entries) or the extended (>= 128 entries) list encoding
+    let n_private = [3usize, 128, 129, 200][(k / 2) % 4];
+    sim.db(|db| {
+        use dnp3::app::attr::*;
+        let _ = db.define_attr(AttrProp::default(), OwnedAttribute::new(AttrSet::Default, 252, OwnedAttrValue::VisibleString("verif".into())));
+        let _ = db.define_attr(AttrProp::writable(), OwnedAttribute::new(AttrSet::Default, 247, OwnedAttrValue::VisibleString("name".into())));
+        let _ = db.define_attr(AttrProp::default(), OwnedAttribute::new(AttrSet::Default, 248, OwnedAttrValue::VisibleString("serial".into())));
+        for v in 0..n_private {
+            let value = match v % 4 {
+                0 => OwnedAttrValue::UnsignedInt(v as u32 * 1000),
+                1 => OwnedAttrValue::SignedInt(-(v as i32)),
+                2 => OwnedAttrValue::VisibleString(format!("attr{v}")),
+                _ => OwnedAttrValue::FloatingPoint(FloatType::F32(v as f32)),
+            };
+            let prop = if v % 3 == 0 { AttrProp::writable() } else { AttrProp::default() };
+            let _ = db.define_attr(prop, OwnedAttribute::new(AttrSet::new(1), v as u8, value));
+        }
+    });
     sim.take_out();
     let mut frags = Vec::new();
     let mut seq = 0u8;
@@ -376,6 +395,11 @@ fn outstation_corpus(k: usize) -> Vec<Vec<u8>> {
         app::hdr_range16(30, 0, 0, 65535),
         app::hdr_range8(1, 2, 0, 7),
         app::hdr_all(110, 0),
+        vec![0, 254, 0x00, 0, 0],
+        vec![0, 255, 0x00, 0, 0],
+        vec![0, 254, 0x00, 1, 1],
+        vec![0, 255, 0x00, 1, 1],
+        vec![0, 252, 0x00, 0, 0],
     ];
     for r in requests {
         seq = (seq + 1) & 0x0F;
